@@ -15,9 +15,17 @@
    waits for a handshake, one goroutine per accepted connection) has its own
    non-interference theorems below; they are tied to the code by runs against a
    real TLS listener and a real DTLS-PSK listener with peers that stall in their
-   handshake (TlsRun cases). *)
+   handshake (TlsRun cases).
+   Round 2: the discovery table holds exactly the requests in progress (a request
+   whose datagram cannot be sent leaves no trace), and the keep-alive level
+   (Server/KeepAlive.v): a server with options.WithKeepAlive is a table of C18's
+   single-connection machines, one per connection; non-interference between the
+   connections for all histories, tied to the code by runs of real udp and tcp
+   servers with several peers on a virtual clock (KaRun cases). *)
 From Coq Require Import ZArith List Bool.
 From GoCoap Require Import Base.Bytes Dedup.Model Server.Model Server.Proofs Server.AcceptProofs.
+From GoCoap Require Monitor.Model Monitor.Spec Monitor.Proofs.
+From GoCoap Require Import Server.KeepAlive Server.KeepAliveProofs.
 Import ListNotations.
 Open Scope Z_scope.
 
@@ -253,3 +261,119 @@ Example C10_instance :
   | None => False
   end.
 Proof. vm_compute. repeat split; auto 10. Qed.
+
+(* ---- discovery: the handler table holds exactly the requests in progress (round 2) ----
+   "responses to a discovery request are delivered only to the receiver registered for their token": a receiver is
+   registered from the LoadOrStore of its DiscoveryRequest call until that call returns -- HOWEVER it returns.
+   EDiscFail is the call whose datagram cannot be sent (WriteMulticast / WriteWithContext error): it returns at
+   once and the deferred LoadAndDelete has run. *)
+Section DiscoveryTable.
+  Variables pstate datagram pout : Type.
+  Variable peer_init : Z -> pstate.
+  Variable peer_step : mhtab -> pstate -> datagram -> presult pstate pout.
+  Variable recv_trunc : datagram -> datagram.
+
+  (* a request that could not be sent leaves no trace: the server state after the call is the state before it *)
+  Theorem C10_discovery_failed_send_leaves_no_trace_partial : forall s tok rcv,
+    step pstate datagram pout peer_init peer_step recv_trunc s (EDiscFail tok rcv) =
+    SOk s (match mh_lookup (mh s) tok with Some _ => [SDiscExists] | None => [SDiscSendErr] end).
+  Proof. exact (disc_failed_send_no_trace pstate datagram pout peer_init peer_step recv_trunc). Qed.
+
+  (* ... so everything that follows -- datagrams with its token from any peer, other requests -- is what it would
+     have been without the call *)
+  Theorem C10_discovery_failed_send_invisible_partial : forall s tok rcv evs,
+    run pstate datagram pout peer_init peer_step recv_trunc s (EDiscFail tok rcv :: evs) =
+    match run pstate datagram pout peer_init peer_step recv_trunc s evs with
+    | Some (s', o) => Some (s', (match mh_lookup (mh s) tok with Some _ => [SDiscExists] | None => [SDiscSendErr] end) ++ o)
+    | None => None
+    end.
+  Proof. exact (disc_failed_send_invisible pstate datagram pout peer_init peer_step recv_trunc). Qed.
+
+  (* ... and the same request can be issued again with the same token *)
+  Theorem C10_discovery_retry_after_failed_send_partial : forall s tok rcv rcv', mh_lookup (mh s) tok = None ->
+    exists s', run pstate datagram pout peer_init peer_step recv_trunc s [EDiscFail tok rcv; EDiscStart tok rcv'] =
+                 Some (s', [SDiscSendErr]) /\ mh s' = (tok, rcv') :: mh s.
+  Proof. exact (disc_retry_after_failed_send pstate datagram pout peer_init peer_step recv_trunc). Qed.
+
+  (* for ALL histories: the table is the set of requests in progress ([in_progress] is computed from the start /
+     return events alone; datagrams, NewConn, closes, ticks and failed sends do not occur in it) *)
+  Theorem C10_discovery_table_is_requests_in_progress_partial : forall evs g s o,
+    run pstate datagram pout peer_init peer_step recv_trunc (init_state g) evs = Some (s, o) ->
+    mh s = in_progress datagram [] evs.
+  Proof. exact (disc_table_in_progress_init pstate datagram pout peer_init peer_step recv_trunc). Qed.
+End DiscoveryTable.
+Print Assumptions C10_discovery_failed_send_leaves_no_trace_partial.
+Print Assumptions C10_discovery_failed_send_invisible_partial.
+Print Assumptions C10_discovery_retry_after_failed_send_partial.
+Print Assumptions C10_discovery_table_is_requests_in_progress_partial.
+
+(* ---- keep-alive level (Server/KeepAlive.v, round 2): a server configured with options.WithKeepAlive ----
+   Every connection owns the keep-alive state the factory builds for it (Monitor/Model.v, C18).
+
+   FULL statement (not proved): on the real servers the keep-alive of one peer -- its stalling, its being dropped,
+   its traffic -- never changes what another peer receives.  Proved for the model in which an event of a connection
+   and a housekeeping round are atomic steps in an arbitrary interleaving; that the real servers ARE this model
+   (one KeepAlive per connection) is what the KaRun cases observe: real udp and tcp servers, several peers, virtual
+   clock, every peer observed with the others and alone. *)
+
+(* for ALL histories of any number of connections: what connection i is seen to do (pings sent to it, the round
+   at which it is closed) is what it does in the history with only its own events and the housekeeping rounds *)
+Theorem C10_keepalive_noninterference_partial : forall c i evs,
+  kproj i (snd (krun c [] evs)) = kproj i (snd (krun c [] (filter (kev_keep i) evs))).
+Proof. exact keepalive_noninterference. Qed.
+Print Assumptions C10_keepalive_noninterference_partial.
+
+(* whether the other peers exist, answer their pings, connect and stall, are dropped by keep-alive or keep
+   sending: no difference for connection i *)
+Theorem C10_keepalive_other_peers_irrelevant_partial : forall c i evs evs',
+  filter (kev_keep i) evs = filter (kev_keep i) evs' ->
+  kproj i (snd (krun c [] evs)) = kproj i (snd (krun c [] evs')).
+Proof. exact keepalive_other_peers_irrelevant. Qed.
+Print Assumptions C10_keepalive_other_peers_irrelevant_partial.
+
+(* a connection of the server IS the single-connection machine of C18 run on its own events *)
+Theorem C10_keepalive_conn_is_monitor_partial : forall c i evs tab s,
+  NoDup (map fst tab) -> klookup i tab = Some s ->
+  kproj i (snd (krun c tab evs)) = conn_run c s (flat_map (kev_of i) evs).
+Proof. exact keepalive_conn_is_monitor. Qed.
+Print Assumptions C10_keepalive_conn_is_monitor_partial.
+
+(* ... hence C18's judge holds of each connection separately: it is closed by keep-alive only after more than
+   maxRetries consecutive pings OF ITS OWN went unanswered, whatever table of other connections it lives in *)
+Theorem C10_keepalive_each_conn_judged_alone_partial : forall c i t tab evs,
+  Monitor.Proofs.wf c -> NoDup (map fst tab) -> klookup i tab = Some (Monitor.Model.init t) ->
+  Monitor.Proofs.rx_ordered t (flat_map (kev_of i) evs) ->
+  Monitor.Spec.spec_ok (Monitor.Proofs.P_of c t) (kproj i (snd (krun c tab evs))) = true.
+Proof. exact keepalive_each_conn_judged_alone. Qed.
+Print Assumptions C10_keepalive_each_conn_judged_alone_partial.
+
+(* a client that connects after ANY history -- peers that stalled and were dropped included -- and stays idle is
+   pinged, not closed, at the first housekeeping round later than a period after its arrival *)
+Theorem C10_keepalive_late_client_pinged_partial : forall c evs i t tau,
+  Monitor.Model.ka c = true -> Monitor.Model.period c <> 0 -> 0 < Monitor.Model.maxr c ->
+  t + Monitor.Model.period c < tau ->
+  klookup i (fst (krun c [] evs)) = None ->
+  kproj i (snd (krun c (fst (krun c [] evs)) [KOpen i t; KSweep tau []])) =
+    [(Monitor.Model.Tick tau true, [Monitor.Model.Ping 1])].
+Proof. exact keepalive_late_client_pinged. Qed.
+Print Assumptions C10_keepalive_late_client_pinged_partial.
+
+(* contrast (NOT the code): with ONE KeepAlive captured by the factory and shared by all connections the statement
+   is false -- a peer that connected and stalled leaves the shared counter above maxRetries and the next idle client
+   is closed at its first check *)
+Theorem C10_shared_keepalive_would_interfere :
+  kproj 1%nat (snd (krun_shared contrast_cfg ([], shared_init) contrast_history)) <>
+  kproj 1%nat (snd (krun_shared contrast_cfg ([], shared_init) (filter (kev_keep 1%nat) contrast_history))).
+Proof. exact shared_keepalive_interferes. Qed.
+Print Assumptions C10_shared_keepalive_would_interfere.
+
+(* non-vacuity at the keep-alive level: connection 0 stalls and is dropped, connection 1 arrives afterwards, is
+   pinged at its first idle round, answers, and is pinged again a period later *)
+Example C10_keepalive_instance :
+  kproj 1%nat (snd (krun contrast_cfg []
+     [KOpen 0%nat 0; KSweep 11 []; KSweep 12 []; KOpen 1%nat 12; KSweep 23 []; KConn 1%nat (Monitor.Model.Pong 1 24); KSweep 35 []]))
+  = [(Monitor.Model.Tick 23 true, [Monitor.Model.Ping 1]); (Monitor.Model.Pong 1 24, []);
+     (Monitor.Model.Tick 35 true, [Monitor.Model.Cancel 1; Monitor.Model.Ping 2])]
+  /\ kproj 0%nat (snd (krun contrast_cfg [] [KOpen 0%nat 0; KSweep 11 []; KSweep 12 []]))
+  = [(Monitor.Model.Tick 11 true, [Monitor.Model.Ping 1]); (Monitor.Model.Tick 12 true, [Monitor.Model.Cancel 1; Monitor.Model.Close])].
+Proof. vm_compute. split; reflexivity. Qed.
